@@ -299,6 +299,18 @@ theorem restart_refines (env : Env) (fail : List String) (w : World) (c : Cat)
       have hmem : i ∈ w.store.tids := hdom i t hti
       cases hen : t.enabled <;> simp [hmem, hen]
 
+/-! ### run-time death -/
+
+theorem die_refines (env : Env) (fail : List String) (w : World) (c : Cat) (id : String) (h : DInv w.view c) :
+    DInv (dieTask w id).1.view (accept env fail c (.die id)) := by
+  rw [dieTask_view]
+  refine ⟨h.assoc, h.tasks, h.tmpls, fun i => ?_⟩
+  have he := h.exec i
+  simp only [accept, Cat.executing, setStarted, View.setExec] at he ⊢
+  by_cases hi : i = id
+  · subst hi; simp; cases c.tasks i <;> simp
+  · simp only [hi, if_false]; exact he
+
 /-! ### update: resolution, validation and the closed forms of its sub-steps -/
 
 
@@ -518,6 +530,9 @@ theorem refine_step (env : Env) (w : World) (c : Cat) (r : Req) (h : RInv w c)
     | restart =>
       simp only [handle, specStep, if_true]
       exact restart_refines env r.fail w0 c hdom hd
+    | die id =>
+      simp only [handle, specStep, dieTask_ok, if_true]
+      exact die_refines env r.fail w0 c id hd
   · rw [hcut]
     simp only [step]
     exact WDom.handle (w := beginReq w none) h.dom Variant.fixed env r.fail r.op
